@@ -333,6 +333,9 @@ impl Ctx {
             self.inconclusive += o.labels.get("inconclusive").copied().unwrap_or(0);
             for (k, v) in &o.labels {
                 *self.labels.entry(k.clone()).or_insert(0) += v;
+                if k.starts_with("harness-panic:") {
+                    self.health_problems.push(format!("campaign {}: {} x {}", name, v, k));
+                }
             }
             for h in &o.distinct {
                 self.distinct_nontrivial.insert(*h);
@@ -540,7 +543,16 @@ where
 
     let result = runner.run(&strategy, |case| {
         let mut log = CaseLog::default();
-        let verdict = prop(&case, &mut log);
+        // Panics of the code under test are caught and classified inside the properties; a panic that arrives here is the
+        // harness's own (an unwrap on a spawn under load, a slicing mistake): a health problem (exit 2), never a violation.
+        let verdict = match std::panic::catch_unwind(std::panic::AssertUnwindSafe(|| prop(&case, &mut log))) {
+            Ok(v) => v,
+            Err(p) => {
+                let msg = p.downcast_ref::<String>().cloned().or_else(|| p.downcast_ref::<&str>().map(|s| s.to_string())).unwrap_or_else(|| "panic".into());
+                log.label(format!("harness-panic:{}", msg.chars().take(160).collect::<String>()));
+                Verdict::Pass
+            }
+        };
         let mut s = st.borrow_mut();
         if s.counting {
             match &verdict {
